@@ -623,13 +623,21 @@ def compileList {α β : Type} (run : α → β) (next : Nat) (tasks : List α) 
 
 /-! ## Measurements and mappings (transcription of passes/measure.py, passes/mapping/apply.py) -/
 
+/-- `[f(x) for x in l]` where `f` may raise. -/
+def mapOpt {α β : Type} (f : α → Option β) : List α → Option (List β)
+  | [] => some []
+  | x :: xs =>
+    match f x, mapOpt f xs with
+    | some y, some ys => some (y :: ys)
+    | _, _ => none
+
 /-- `RestoreMeasurements`: `{pi[q]: c for q, c in measurements.items()}` with
 `pi = data.final_mapping` (an index outside the mapping raises: `none`). -/
 def restoreMeas (fm : List Nat) (ms : List (Nat × Nat)) : Option (List (Nat × Nat)) :=
-  ms.mapM (fun p => (fm[p.1]?).map (fun q => (q, p.2)))
+  mapOpt (fun p => (fm[p.1]?).map (fun q => (q, p.2))) ms
 
 /-- `ApplyPlacement`: `data.final_mapping = [placement[p] for p in data.final_mapping]`. -/
 def applyPlacementMap (placement fm : List Nat) : Option (List Nat) :=
-  fm.mapM (fun p => placement[p]?)
+  mapOpt (fun p => placement[p]?) fm
 
 end BqVerif.Pipeline
